@@ -168,7 +168,7 @@ func newPathToken(typ pathType, val string, s, e int) pathToken {
 	case pathTypeLitInt:
 		i, err := strconv.Atoi(val)
 		if err != nil {
-			panic(err)
+			return pathToken{typ: pathTypeERR, val: newPathValueStr(err.Error()), loc: [2]int{s, e}}
 		}
 		return pathToken{typ: typ, val: newPathValueInt(i), loc: [2]int{s, e}}
 	default:
